@@ -534,6 +534,7 @@ type simReplica struct {
 	compactTo   uint64 // pending log compaction target
 
 	inStep      bool
+	holdApply   bool // macro scenarios: the apply worker of this replica is stalled
 	stepApplied uint64
 	timeoutOff  uint64
 
@@ -598,6 +599,7 @@ type sim struct {
 	fairMode      bool
 	maxOps        int
 	snapRegistry  map[string]*appSnap
+	hbAcks        map[[2]uint64]map[uint64]map[uint64]bool // (leader, term) -> ctx -> responders
 	everLeaderIDs map[uint64]bool
 }
 
@@ -638,6 +640,7 @@ func newSim(opts simOpts, fail func(sig string, format string, args ...interface
 		ccOutcome:     map[uint64]string{},
 		flags:         map[string]int{},
 		snapRegistry:  map[string]*appSnap{},
+		hbAcks:        map[[2]uint64]map[uint64]map[uint64]bool{},
 		everLeaderIDs: map[uint64]bool{},
 		nextKey:       1000,
 		nextCtx:       1,
@@ -1105,7 +1108,30 @@ func (s *sim) deliverMsg(m pb.Message) {
 		return
 	}
 	s.onDeliver(r, m)
+	var queue []uint64
+	beforeRTR, beforeMsgs := 0, 0
+	wasLeader := r.raft().state == leader
+	if wasLeader && m.Type == pb.HeartbeatResp {
+		for _, c := range r.raft().readIndex.queue {
+			queue = append(queue, c.Low)
+		}
+		beforeRTR, beforeMsgs = len(r.raft().readyToRead), len(r.raft().msgs)
+	}
 	s.input(r, "handle-"+m.Type.String(), func() error { return r.peer.Handle(m) })
+	if wasLeader && m.Type == pb.HeartbeatResp && r.running() && r.raft().state == leader {
+		// reads released while handling this confirmation: for itself (readyToRead)
+		// and for remote requesters (ReadIndexResp)
+		rtr := r.raft().readyToRead
+		for i := beforeRTR; i < len(rtr); i++ {
+			s.checkReadQuorum(r, rtr[i].SystemCtx.Low, queue, "local release")
+		}
+		msgs := r.raft().msgs
+		for i := beforeMsgs; i < len(msgs); i++ {
+			if msgs[i].Type == pb.ReadIndexResp {
+				s.checkReadQuorum(r, msgs[i].Hint, queue, fmt.Sprintf("ReadIndexResp to %d", msgs[i].To))
+			}
+		}
+	}
 }
 
 func (s *sim) hasPendingRecover(r *simReplica) bool {
@@ -1184,6 +1210,7 @@ func (s *sim) applyRecover(r *simReplica, ss pb.Snapshot) {
 		}
 	}
 	s.safely(r, "restore-remotes", func() error { return r.peer.RestoreRemotes(ss) })
+	s.checkRaftMembership(r, fmt.Sprintf("after restoring snapshot %d", ss.Index))
 	s.fixTimeout(r)
 	s.checkApplied(r)
 	s.observe(r)
@@ -1241,6 +1268,9 @@ func (s *sim) applyEntry(r *simReplica, e pb.Entry) {
 		// node.ApplyConfigChange (runs under raftMu, i.e. between steps)
 		if accepted {
 			s.safely(r, "apply-configchange", func() error { return r.peer.ApplyConfigChange(cc) })
+			if r.applied+1 > uint64(len(s.initialAddresses())) || !r.initial {
+				s.checkRaftMembership(r, fmt.Sprintf("after applying the config change at %d", e.Index))
+			}
 			if cc.Type == pb.RemoveNode && cc.ReplicaID == r.id {
 				if r.raft().state == leader {
 					s.fail("removed-leader-still-leader", "replica %d applied its own removal and is still leader", r.id)
@@ -1447,7 +1477,9 @@ func (s *sim) round(tick bool) {
 		s.step(r, 0)
 	}
 	for _, r := range s.runningReps() {
-		s.apply(r, 1<<20)
+		if !r.holdApply {
+			s.apply(r, 1<<20)
+		}
 	}
 	for _, r := range s.runningReps() {
 		s.step(r, 0)
